@@ -271,6 +271,9 @@ class TunnelCommunity(Community):
         crypto_endpoint = getattr(self, "crypto_endpoint", None)
         if isinstance(crypto_endpoint, EndpointListener):
             self.endpoint.remove_listener(crypto_endpoint)
+        # Anonymized overlays that keep sending through our TunnelEndpoint must not make us build circuits anymore.
+        if isinstance(self.endpoint, TunnelEndpoint) and self.endpoint.tunnel_community is self:
+            self.endpoint.set_tunnel_community(None, self.endpoint.hops)
 
         removals = [self.remove_circuit(circuit_id, "unload", remove_now=True, destroy=DESTROY_REASON_SHUTDOWN)
                     for circuit_id in list(self.circuits.keys())]
